@@ -10,12 +10,15 @@ from . import build
 from .proto import Case, parse_output
 
 WORK = os.path.join(build.VERIF, ".work")
-MODELLED_KINDS = {"kzg10", "c16", "c13"}   # case kinds for which the extracted model must answer
+MODELLED_KINDS = {"kzg10", "c16", "c13"}
+MODELLED_SUBS = {("c09", "kzg_setup")}   # case kinds for which the extracted model must answer
 MODELLED_PC_SCHEMES = {"marlin"}
 
 
 def is_modelled(c):
     if c.kind in MODELLED_KINDS:
+        return True
+    if (c.kind, c.fields.get("sub", [""])[0]) in MODELLED_SUBS:
         return True
     if c.kind in ("pc", "c08"):
         return c.fields.get("scheme", [""])[0] in MODELLED_PC_SCHEMES and "beta" in c.fields
@@ -131,6 +134,14 @@ class Engine:
                 if ty in ("G1", "G2") or ty.startswith("V:"):
                     reqs.append((ty, mt))
                     where.append((c.id, name, lt))
+                elif ty.startswith("R:"):
+                    # exponents relative to a base element the library itself published
+                    base = lib.get(c.id, {}).get("in", {}).get(ty[2:])
+                    if not base:
+                        diffs.append({"case": c.id, "name": name, "lib": "<no base %s>" % ty[2:], "model": " ".join(mt)[:80]})
+                    else:
+                        reqs.append(("%s@%s" % (base[0], base[1]), mt))
+                        where.append((c.id, name, lt))
                 elif comparators and name.split(".")[0] in comparators:
                     if not comparators[name.split(".")[0]](lt, mt):
                         diffs.append({"case": c.id, "name": name, "lib": " ".join(lt), "model": " ".join(mt)})
